@@ -1,6 +1,7 @@
 package main
 
 import (
+	"bufio"
 	"errors"
 	"io"
 	"net"
@@ -172,7 +173,19 @@ func (c *countConn) Close() error {
 
 // ---- transports ----
 
-var transports = []string{"pipe", "frag-coalesce", "frag-frag1", "frag-fragrand", "frag-mixed", "tcp"}
+var transports = []string{"pipe", "frag-coalesce", "frag-frag1", "frag-fragrand", "frag-mixed", "tcp", "bufio-coalesce"}
+
+// bufConn is the buffered connection of the package documentation (rpc.go, "Example 2"):
+// the codec must Flush it after every message; its Reader is also an io.ByteReader.
+type bufConn struct {
+	io.Closer
+	*bufio.Reader
+	*bufio.Writer
+}
+
+func newBufConn(c io.ReadWriteCloser, size int) io.ReadWriteCloser {
+	return bufConn{c, bufio.NewReaderSize(c, size), bufio.NewWriterSize(c, size)}
+}
 
 var (
 	lnOnce sync.Once
@@ -228,8 +241,20 @@ func newTransport(name string, seed uint64) (cli, srv io.ReadWriteCloser, err er
 	case "frag-mixed":
 		a, b := newFragPair(modeMixed, seed)
 		return a, b, nil
+	case "bufio-coalesce":
+		a, b := newFragPair(modeCoalesce, seed)
+		return a, b, nil // wrapped by wrapConn, outside the counting layer
 	}
 	return nil, nil, errors.New("unknown transport " + name)
+}
+
+// wrapConn puts the documented bufio wrapper around the (counting) connection for the
+// "bufio-" transports; the codec then sees an ioFlusher and an io.ByteReader.
+func wrapConn(transport string, c io.ReadWriteCloser, seed uint64) io.ReadWriteCloser {
+	if transport == "bufio-coalesce" {
+		return newBufConn(c, 16+int(seed%3)*1000)
+	}
+	return c
 }
 
 func coalescedReads(c io.ReadWriteCloser) int {
